@@ -433,6 +433,23 @@ def run(ctx):
                 prof = [p % n for p, n in zip(prof, T.nums)]
                 key = tuple(prof)
                 ctx.count("set:wrong-value-length")
+            if N == 2 and not malformed and np.shares_memory(g.players[0].payoff_array, g.players[1].payoff_array):
+                # both Players of a symmetric game sit on ONE ndarray: judge the write on a copy built the
+                # same way, report, and leave this call out of the history (the model describes players
+                # that own their arrays)
+                gc = NormalFormGame(g.players[0].payoff_array.copy())
+                gc[key] = vals
+                Tc = T.copy()
+                Tc.u[tprof] = tuple(vals)
+                bad_cells = [(q, i) for q in Tc.profiles() for i in range(2) if gc[q][i] != Tc.u[q][i]]
+                ctx.count("set:on-shared-array")
+                if bad_cells:
+                    q, i = bad_cells[0]
+                    ctx.spec_fail("sym-shared-array", "symmetric game %s: g[%s]=%s makes player %d's payoff at %s equal %r, "
+                                  "definition %r (both Players share one ndarray)" % (
+                                      g.players[0].payoff_array.tolist(), key, vals, i, q, gc[q][i], Tc.u[q][i]),
+                                  dict(replay, index=prof, values=vals))
+                return None
             try:
                 g[key] = vals if N >= 2 else vals[0]
                 out = "-"
@@ -620,6 +637,11 @@ def run(ctx):
                 return "dompure:%d:%d:%s" % (i, a, rat(tolv)), "b%d" % r, g, T, is_poly
             rows = [b for b in range(n) if b != a]
             if len(cols) > 30:
+                return None
+            if scale > 1e6:
+                # minmax works in doubles after shifting the matrix by a constant: payoffs spread over
+                # 1e15..1e22 lose the small entries; conditioning of the LP belongs to C04, not to the convention
+                ctx.count("skipped:dom-ill-scaled")
                 return None
             Dm = [[ui(b, c) - ui(a, c) for c in cols] for b in rows]
             sol = game_value(Dm)
